@@ -359,22 +359,66 @@ theorem arc_range_sector (pt1 pt3 : P2 ℝ) (a : ℝ) (ha0 : 0 ≤ a) (ha2 : a <
       rw [this]
       exact mul_nonneg hn1.le (Real.sin_nonneg_of_nonneg_of_le_pi (by linarith) (by linarith))
 
-/-- closed form of the root written by the arc loop -/
-theorem arcDist_eq (v : P2 ℝ) (r a : ℝ) :
-    arcDist v r a = (2 * (v.x * Real.cos a + v.y * Real.sin a) +
-      Real.sqrt ((2 * (v.x * Real.cos a + v.y * Real.sin a)) ^ 2 - 4 * (v.x * v.x + v.y * v.y - r * r))) / 2 := by
+theorem Scalar.max_real_zero (x : ℝ) : Scalar.max x (Scalar.lit 0) = Max.max x 0 := by
+  simp only [Scalar.max, Scalar.lit, Scalar.ofNat_real, Nat.cast_zero]
+  split_ifs with h
+  · exact (max_eq_right h.le).symm
+  · exact (max_eq_left (not_lt.mp h)).symm
+
+/-- **closed form of the root written by the arc loop** (the expression of /repo 5df35a1):
+`B + √max(r² − S², 0)` with `B = v·u = |v| cos(a − φ)`, `S = cross(v, u) = |v| sin(a − φ)` -/
+theorem arcDist_new (v : P2 ℝ) (r a : ℝ) :
+    arcDist v r a = (v.x * Real.cos a + v.y * Real.sin a) +
+      Real.sqrt (Max.max (r * r - (v.x * Real.sin a - v.y * Real.cos a) * (v.x * Real.sin a - v.y * Real.cos a)) 0) := by
   obtain ⟨hpx, hpy⟩ := polar_atan2Pos v
-  have hN := P2.norm_mul_self v
   set N := P2.norm v with hNdef
   set φ := atan2Pos v.y v.x with hφ
-  have hb : -(2 : ℝ) * N * Real.cos (a - φ) = -(2 * (v.x * Real.cos a + v.y * Real.sin a)) := by
+  have hb : N * Real.cos (a - φ) = v.x * Real.cos a + v.y * Real.sin a := by
     rw [Real.cos_sub, ← hpx, ← hpy]; ring
-  simp only [arcDist, Scalar.lit, Scalar.ofNat_real, Scalar.sqrt_real, Scalar.cos_real,
-    Nat.cast_ofNat, Nat.cast_one, mul_one, ← hNdef, ← hφ]
-  rw [hb, hN]
-  congr 2
-  · ring
-  · congr 1; ring
+  have hs : N * Real.sin (a - φ) = v.x * Real.sin a - v.y * Real.cos a := by
+    rw [Real.sin_sub, ← hpx, ← hpy]; ring
+  simp only [arcDist, Scalar.max_real_zero]
+  simp only [Scalar.lit, Scalar.ofNat_real, Scalar.sqrt_real, Scalar.cos_real,
+    Scalar.sin_real, Nat.cast_ofNat, Nat.cast_one, mul_one, ← hNdef, ← hφ]
+  rw [hs]
+  have h4 : Real.sqrt (4 * Max.max (r * r - (v.x * Real.sin a - v.y * Real.cos a) * (v.x * Real.sin a - v.y * Real.cos a)) 0) =
+      2 * Real.sqrt (Max.max (r * r - (v.x * Real.sin a - v.y * Real.cos a) * (v.x * Real.sin a - v.y * Real.cos a)) 0) := by
+    rw [show (4 : ℝ) = 2 * 2 by norm_num, mul_assoc, Real.sqrt_mul (by norm_num), Real.sqrt_mul (by norm_num),
+      ← mul_assoc, Real.mul_self_sqrt (by norm_num)]
+  rw [h4, ← hb]; ring
+
+/-- the new discriminant is the old one: `4 (r² − (|v| sin Δ)²) = b² − 4ac` -/
+theorem arc_disc_identity (v : P2 ℝ) (r a : ℝ) :
+    4 * (r * r - (v.x * Real.sin a - v.y * Real.cos a) * (v.x * Real.sin a - v.y * Real.cos a)) =
+      (2 * (v.x * Real.cos a + v.y * Real.sin a)) ^ 2 - 4 * (v.x * v.x + v.y * v.y - r * r) := by
+  have hsc := sin_mul_self_add_cos_mul_self a
+  linear_combination (-4 * (v.x * v.x + v.y * v.y)) * hsc
+
+/-- where the textbook discriminant is non-negative the new expression IS the textbook root
+`(−b + √(b² − 4ac)) / 2a` -/
+theorem arcDist_eq (v : P2 ℝ) (r a : ℝ)
+    (hdisc : 0 ≤ (2 * (v.x * Real.cos a + v.y * Real.sin a)) ^ 2 - 4 * (v.x * v.x + v.y * v.y - r * r)) :
+    arcDist v r a = (2 * (v.x * Real.cos a + v.y * Real.sin a) +
+      Real.sqrt ((2 * (v.x * Real.cos a + v.y * Real.sin a)) ^ 2 - 4 * (v.x * v.x + v.y * v.y - r * r))) / 2 := by
+  rw [arcDist_new, ← arc_disc_identity]
+  rw [← arc_disc_identity] at hdisc
+  set D := r * r - (v.x * Real.sin a - v.y * Real.cos a) * (v.x * Real.sin a - v.y * Real.cos a) with hD
+  have hD0 : 0 ≤ D := by linarith
+  rw [max_eq_left hD0]
+  have h4 : Real.sqrt (4 * D) = 2 * Real.sqrt D := by
+    rw [show (4 : ℝ) = 2 * 2 by norm_num, mul_assoc, Real.sqrt_mul (by norm_num), Real.sqrt_mul (by norm_num),
+      ← mul_assoc, Real.mul_self_sqrt (by norm_num)]
+  rw [h4]; ring
+
+/-- rounding radius `0`: the root is `|v| cos(a − φ) = v·u` for EVERY direction (the clipped
+discriminant vanishes), never undefined -/
+theorem arcDist_r0 (v : P2 ℝ) (a : ℝ) :
+    arcDist v 0 a = v.x * Real.cos a + v.y * Real.sin a := by
+  rw [arcDist_new]
+  have : Max.max (0 * 0 - (v.x * Real.sin a - v.y * Real.cos a) * (v.x * Real.sin a - v.y * Real.cos a)) 0 = 0 := by
+    apply max_eq_right
+    nlinarith [mul_self_nonneg (v.x * Real.sin a - v.y * Real.cos a)]
+  rw [this, Real.sqrt_zero, add_zero]
 
 /-- **arc branch, inside its angular range.**  `pt1`, `pt3` on the circle of radius `r` about the
 core vertex `v`, `cross(pt1, pt3) > 0`, and the direction `a` in the sector between them: the
@@ -413,12 +457,12 @@ theorem arc_in_sector (v pt1 pt3 : P2 ℝ) (r a : ℝ)
   have hdisc0 : 0 ≤ (2 * B) ^ 2 - 4 * (v.x * v.x + v.y * v.y - r * r) :=
     le_trans (sq_nonneg _) hdisc
   refine ⟨hdisc0, ?_, ?_⟩
-  · rw [arcDist_eq, ← hBdef]
+  · rw [arcDist_eq v r a hdisc0, ← hBdef]
     have : |2 * (d - B)| ≤ Real.sqrt ((2 * B) ^ 2 - 4 * (v.x * v.x + v.y * v.y - r * r)) := by
       rw [← Real.sqrt_sq_eq_abs]; exact Real.sqrt_le_sqrt hdisc
     have h2 := le_abs_self (2 * (d - B))
     linarith
-  · rw [arcDist_eq, ← hBdef]
+  · rw [arcDist_eq v r a hdisc0, ← hBdef]
     have hsq := Real.mul_self_sqrt hdisc0
     set S := Real.sqrt ((2 * B) ^ 2 - 4 * (v.x * v.x + v.y * v.y - r * r))
     rw [hBdef] at hsq ⊢
